@@ -429,39 +429,43 @@ impl ForwardedStreamSink {
     }
 
     fn on_encoded_chunk(&mut self, mut data: Bytes) -> io::Result<Bytes> {
-        let mut state = match std::mem::replace(&mut self.state, SinkState::Idle) {
+        let state = match &mut self.state {
             SinkState::TransferringBodyChunked(x) => x,
             _ => unreachable!(),
         };
 
-        let to_send =
-            std::cmp::min(data.len() as u64, state.remaining_chunk_size.unwrap()) as usize;
+        let remaining = state.remaining_chunk_size.unwrap();
+        let to_send = std::cmp::min(data.len() as u64, remaining) as usize;
         let unsent = state.sink.write(data.slice(..to_send))?;
-
-        let remaining = state
-            .remaining_chunk_size
-            .take()
-            .unwrap()
-            .saturating_sub(to_send as u64);
+        // only the bytes the client sink accepted are done with
+        let sent = to_send - unsent.len();
+        let remaining = remaining - sent as u64;
         log_id!(
             trace,
             self.id,
             "Encoded chunk: {} bytes (remaining {} bytes)",
-            to_send,
+            sent,
             remaining
         );
         if remaining > 0 {
             state.remaining_chunk_size = Some(remaining);
         } else {
-            self.state = SinkState::WaitingChunkSuffix(SinkWaitingChunkSuffix {
-                buffer: BytesMut::with_capacity(ENCODED_CHUNK_SUFFIX.len()),
-                terminating_chunk: false,
-                sink: state.sink,
-            });
+            self.state = match std::mem::replace(&mut self.state, SinkState::Idle) {
+                SinkState::TransferringBodyChunked(x) => {
+                    SinkState::WaitingChunkSuffix(SinkWaitingChunkSuffix {
+                        buffer: BytesMut::with_capacity(ENCODED_CHUNK_SUFFIX.len()),
+                        terminating_chunk: false,
+                        sink: x.sink,
+                    })
+                }
+                _ => unreachable!(),
+            };
         }
-        self.fake_unsent = !data.is_empty();
+        // what is left is either framing to be parsed at once, or - if the client sink
+        // refused a part - real back-pressure that must be waited for
+        self.fake_unsent = unsent.is_empty() && data.len() > sent;
 
-        Ok(data.split_off(to_send - unsent.len()))
+        Ok(data.split_off(sent))
     }
 
     fn on_encoded_chunk_suffix(&mut self, mut data: Bytes) -> io::Result<Bytes> {
